@@ -72,33 +72,40 @@ def popCount (a : IWV) : IWV :=
 inductive SliceStart | none | compl
 deriving Repr, DecidableEq
 
+/-- the bits `x[_:stop:step]` selects, before the optional complement (the four branches of
+    `IntegerWrapper.__getitem__`) -/
+def sliceCut (a : IWV) (stop step : Option Int) : Except PyErr IWV :=
+  match stop, step with
+  | some st, some sp =>
+    if sp ≠ 0 ∧ 0 ≤ st then
+      if sp < 0 then .error .valueError
+      else .ok (mkIW (orBits (List.range' sp.toNat (st.toNat + 1)) (fun i => bitAt a i * 2 ^ (i - sp.toNat))) (some st))
+    else if 0 < st then .ok (mkIW (orBits (List.range st.toNat) (fun i => bitAt a i * 2 ^ i)) (some st))
+    else if st < 0 then
+      if 0 < sp then
+        .ok (revBits (mkIW (orBits (List.range' sp.toNat ((-st).toNat + 1)) (fun i => bitAt a i * 2 ^ (i - sp.toNat))) (some (-st))) (-st))
+      else .ok (revBits (mkIW (orBits (List.range (-st).toNat) (fun i => bitAt a i * 2 ^ i)) (some (-st))) (-st))
+    else .ok a
+  | some st, none =>
+    if 0 < st then .ok (mkIW (orBits (List.range st.toNat) (fun i => bitAt a i * 2 ^ i)) (some st))
+    else if st < 0 then .ok (revBits (mkIW (orBits (List.range (-st).toNat) (fun i => bitAt a i * 2 ^ i)) (some (-st))) (-st))
+    else .ok a
+  | none, some sp =>
+    if sp < 0 ∨ a.n < 0 then .error .valueError
+    else .ok (mkIW (orBits (List.range' sp.toNat (a.n.toNat - sp.toNat)) (fun i => bitAt a i * 2 ^ i)) (some (a.n - sp)))
+  | none, none => .ok a
+
+/-- `start is True` : `val.invert_bits()` within the width of the cut -/
+def sliceFin (start : SliceStart) (c : IWV) : IWV :=
+  match start with
+  | .none => c
+  | .compl => invBits c c.n
+
 /-- `x[start:stop:step]` — the slice protocol of `IntegerWrapper.__getitem__` (start ∈ {None, True}) -/
 def sliceIW (a : IWV) (start : SliceStart) (stop step : Option Int) : Except PyErr IWV :=
-  let cut : Except PyErr IWV :=
-    match stop, step with
-    | some st, some sp =>
-      if sp ≠ 0 ∧ 0 ≤ st then
-        if sp < 0 then .error .valueError
-        else .ok (mkIW (orBits (List.range' sp.toNat (st.toNat + 1)) (fun i => bitAt a i * 2 ^ (i - sp.toNat))) (some st))
-      else if 0 < st then .ok (mkIW (orBits (List.range st.toNat) (fun i => bitAt a i * 2 ^ i)) (some st))
-      else if st < 0 then
-        if 0 < sp then
-          .ok (revBits (mkIW (orBits (List.range' sp.toNat ((-st).toNat + 1)) (fun i => bitAt a i * 2 ^ (i - sp.toNat))) (some (-st))) (-st))
-        else .ok (revBits (mkIW (orBits (List.range (-st).toNat) (fun i => bitAt a i * 2 ^ i)) (some (-st))) (-st))
-      else .ok a
-    | some st, none =>
-      if 0 < st then .ok (mkIW (orBits (List.range st.toNat) (fun i => bitAt a i * 2 ^ i)) (some st))
-      else if st < 0 then .ok (revBits (mkIW (orBits (List.range (-st).toNat) (fun i => bitAt a i * 2 ^ i)) (some (-st))) (-st))
-      else .ok a
-    | none, some sp =>
-      if sp < 0 ∨ a.n < 0 then .error .valueError
-      else .ok (mkIW (orBits (List.range' sp.toNat (a.n.toNat - sp.toNat)) (fun i => bitAt a i * 2 ^ i)) (some (a.n - sp)))
-    | none, none => .ok a
-  match cut with
+  match sliceCut a stop step with
   | .error e => .error e
-  | .ok c => match start with
-    | .none => .ok c
-    | .compl => .ok (invBits c c.n)
+  | .ok c => .ok (sliceFin start c)
 
 inductive BinOp | add | sub | mul | fdiv | mod | and | or | xor | shl | shr
 deriving Repr, DecidableEq
